@@ -119,7 +119,7 @@ def exn_str(e):
     return "(raise %s)" % core.exn_class(e)
 
 
-def run_impl(model, scn, path, auto, faults, rnd, ops, driver_cls=None):
+def run_impl(model, scn, path, auto, faults, rnd, ops, driver_cls=None, reply_filter=None):
     """-> dict(results, frames, connected, state, log)"""
     import pycomm3.cip_driver as cd
     import tygen
@@ -138,7 +138,11 @@ def run_impl(model, scn, path, auto, faults, rnd, ops, driver_cls=None):
         return out
     old_ur, old_sock = cd.urandom, cd.Socket
     cd.urandom = fake_urandom
-    cd.Socket = lambda *a, **k: NetSocket(shared)
+    def mk_sock(*a, **k):
+        s_ = NetSocket(shared)
+        s_.reply_filter = reply_filter      # applied to what the real driver reads only (the Lean client reads the target's own reply)
+        return s_
+    cd.Socket = mk_sock
     results = []
     try:
         if driver_cls is not None:
@@ -445,12 +449,12 @@ def random_faults(rng, n_ops):
 
 
 def run_case(ctx, model, lines, pend, stream, focus, scn, path, auto, faults, rnd, ops, extra_case=None, check=None,
-             driver_cls=None):
+             driver_cls=None, reply_filter=None):
     case = {"scenario": scn, "path": path, "auto": auto, "faults": [[k[0], k[1], v] for k, v in faults.items()],
             "rnd": [r.hex() for r in rnd], "ops": [op_sx(o) for o in ops]}
     if extra_case:
         case.update(extra_case)
-    impl = run_impl(model, scn, path, auto, faults, rnd, ops, driver_cls=driver_cls)
+    impl = run_impl(model, scn, path, auto, faults, rnd, ops, driver_cls=driver_cls, reply_filter=reply_filter)
     ctx.case(stream, (stream, scn, path, repr(faults), tuple(case["ops"])))
     monitor_frames(ctx, focus, impl, case)
     if check:
